@@ -1,6 +1,7 @@
 /- C09 — stream API contract. -/
 import HtpModel.Conn.Res
 import HtpModel.Lemmas.Driver
+import HtpModel.Lemmas.Consumed
 
 namespace Htp.C09
 open Htp.Conn Htp.Gen
@@ -98,5 +99,37 @@ theorem C09_res_call_contract (cfg : Cfg) (c : Conn) (data : Option Bytes) (len 
 /-- non-vacuity: the hand-over after a CONNECT request returns DATA_OTHER with bytes left -/
 example : Documented STREAM_DATA_OTHER ∧ Documented STREAM_DATA := by
   refine ⟨Or.inr (Or.inr (Or.inr (Or.inl rfl))), Or.inr (Or.inr (Or.inr (Or.inr (Or.inr rfl))))⟩
+
+/-- **C09 (DATA means the whole chunk was consumed), one pass of the driver**: in a state where the cursors are where the driver keeps them
+    (`WFCur`: a real chunk, 0 <= consume <= read <= len <= |chunk| - needed for the request-line state only) and the body states still owe
+    bytes (they are entered only with a positive amount owed), a request state function that answers HTP_DATA or HTP_DATA_BUFFER has moved the
+    read cursor to the end of the chunk - for every state function, chunk, buffer content and callback policy. -/
+theorem C09_data_means_consumed_step (cfg : Cfg) (c : Conn)
+    (hw : c.inState = ReqState.line → WFCur c.inn)
+    (ho1 : c.inState = ReqState.bodyIdentity → 0 < c.inn.bodyDataLeft)
+    (ho2 : c.inState = ReqState.bodyChunkedData → 0 < c.inn.chunkedLength)
+    (hd : (reqStateFn cfg c).2 = Rc.data ∨ (reqStateFn cfg c).2 = Rc.dataBuffer) :
+    (reqStateFn cfg c).1.inn.len ≤ (reqStateFn cfg c).1.inn.read :=
+  consumed_reqStateFn cfg c hw ho1 ho2 hd
+
+/-- ... and the call then returns at once with STREAM_DATA (STREAM_ERROR when the line-buffer limit is hit) and exactly that cursor: the
+    consumed count reported for a DATA answer is the length offered. (That the hypotheses hold in every state the driver loop reaches is an
+    invariant of the whole machine; it is corresponded - the C09 acceptor checks consumed = len on every DATA answer - not proved.) -/
+theorem C09_data_means_consumed (cfg : Cfg) (fuel : Nat) (c : Conn)
+    (hw : c.inState = ReqState.line → WFCur c.inn)
+    (ho1 : c.inState = ReqState.bodyIdentity → 0 < c.inn.bodyDataLeft)
+    (ho2 : c.inState = ReqState.bodyChunkedData → 0 < c.inn.chunkedLength)
+    (hd : (reqStateFn cfg c).2 = Rc.data ∨ (reqStateFn cfg c).2 = Rc.dataBuffer) :
+    ((reqDriverLoop cfg false (fuel + 1) c).2 = STREAM_DATA ∨ (reqDriverLoop cfg false (fuel + 1) c).2 = STREAM_ERROR) ∧
+    (reqDriverLoop cfg false (fuel + 1) c).1.inn.len ≤ (reqDriverLoop cfg false (fuel + 1) c).1.inn.read := by
+  obtain ⟨h1, h2, h3⟩ := reqDriverLoop_data_step cfg fuel c hd
+  refine ⟨h1, ?_⟩
+  rw [h2, h3]
+  exact consumed_reqStateFn cfg c hw ho1 ho2 hd
+
+/-- non-vacuity: a chunk that ends inside a request line is answered with DATA and read to its end -/
+example :
+    let c : Conn := { inn := { status := STREAM_DATA, cur := (b!"GET /"), len := 5 }, inState := .line }
+    (reqStateFn {} c).2 = Rc.dataBuffer ∧ (reqStateFn {} c).1.inn.read = 5 := by decide
 
 end Htp.C09
